@@ -27,7 +27,7 @@ REQUIRED = ["identities_checked", "assorter:plurality", "assorter:supermajority"
             "audit:ONEAUDIT", "elections_with_phantoms", "elections_with_pooled_cards", "elections_with_pooled_phantoms",
             "elections_with_unfindable_cards", "elections_with_missing_contest_mvr", "style_on", "style_off",
             "identities_rechecked_after_cvrs_revised_in_place", "population_checked",
-            "population_data_compared_with_per_card_values"]
+            "population_data_compared_with_per_card_values", "pool_dict_restricted_to_audited_contests"]
 ASSUMPTIONS = ["pool labelling coherent (a batch is pooled or not); add_pool_contests applied under style (documented "
                "precondition of ONEAudit)", "A_i is computed by reference assorters written from the definitions "
                "(cross-checked against the real assorters by C02 and C14)"]
@@ -77,6 +77,8 @@ def run_case(es, rec):
     discrep = len(es["mvrs"])
     rec.case(es, nontrivial=(discrep > 0 and (n_ph > 0 or pooled > 0)), sample=brief(es))
     rec.count("style_on" if sim.use_style else "style_off")
+    if es.get("restrict_pool_dict") and sim.use_style and pooled:
+        rec.count("pool_dict_restricted_to_audited_contests")
     if n_ph:
         rec.count("elections_with_phantoms")
     if pooled:
